@@ -18,6 +18,7 @@ import (
 	"iter"
 	"os"
 	"path/filepath"
+	"runtime"
 	"sort"
 	"strings"
 	"sync"
@@ -265,6 +266,10 @@ func (cl *cluster) savepointRestart(o op, tags map[string]bool, tableIDs map[str
 		tags["SAVEPOINT-FAILED"] = true
 		return "", map[string]any{"savepoint_error": e.Error()}, false, errStop
 	case <-time.After(spWait):
+		if f := os.Getenv("RESCALE_STACKS"); f != "" {
+			buf := make([]byte, 1<<20)
+			os.WriteFile(f, buf[:runtime.Stack(buf, true)], 0o644)
+		}
 		return "", nil, false, fmt.Errorf("savepoint %d was never published", id)
 	}
 	spURI, err := js.store.SavepointURIForID(id)
